@@ -4,7 +4,8 @@ Base module.
 
 from sklearn.base import BaseEstimator, ClassifierMixin
 from sklearn.utils.extmath import stable_cumsum
-from sklearn.utils.validation import _is_arraylike, check_is_fitted
+from sklearn.utils.validation import (_is_arraylike, check_is_fitted,
+                                      check_consistent_length)
 from sklearn.metrics import roc_auc_score, roc_curve, precision_recall_curve
 import numpy as np
 from abc import ABCMeta, abstractmethod
@@ -560,7 +561,10 @@ class _PairsClassifierMixin(BaseMetricLearner, ClassifierMixin):
     score : float
       The ``roc_auc`` score.
     """
-    return roc_auc_score(y, self.decision_function(pairs))
+    scores = self.decision_function(pairs)
+    # roc_auc_score does not compare the lengths when y has a single class
+    check_consistent_length(scores, y)
+    return roc_auc_score(y, scores)
 
   def set_threshold(self, threshold):
     """Sets the threshold of the metric learner to the given value `threshold`.
